@@ -17,8 +17,8 @@ REAL = ["Dispatcher.dispatch/reset/subscribe/unsubscribe/create_or_get_observer"
 STUB = ["recording observer subclasses defined by the harness (peers)"]
 ASSUMPTIONS = ["re-entrant (un)subscription from inside update() and subscribing one object twice through raw subscribe() are out of scope"]
 
-CHURN = ["new_single", "new_multi", "new_other", "new_history", "unsub", "resub", "dup_single", "cog", "bad_feature_observer", "new_subsingle", "new_uns"]
-SILENT = ("history", "uns")  # library observers: they do not write to the callback log
+CHURN = ["new_single", "new_multi", "new_other", "new_history", "unsub", "resub", "dup_single", "cog", "bad_feature_observer", "new_subsingle", "new_uns", "new_feat"]
+SILENT = ("history", "uns", "feat")  # library observers: they do not write to the callback log
 
 
 def generate(seed, tier):
@@ -97,8 +97,8 @@ class H(Hooks):
         rc = rec_classes()
         ctx, d = w.ctx, w.disp
         ctx.fault("subscription_churn:" + action)
-        if action in ("new_single", "new_multi", "new_other", "new_history", "dup_single", "new_subsingle", "new_uns"):
-            kind = {"new_single": "single", "new_multi": "multi", "new_other": "other", "new_history": "history", "dup_single": "single", "new_subsingle": "subsingle", "new_uns": "uns"}[action]
+        if action in ("new_single", "new_multi", "new_other", "new_history", "dup_single", "new_subsingle", "new_uns", "new_feat"):
+            kind = {"new_single": "single", "new_multi": "multi", "new_other": "other", "new_history": "history", "dup_single": "single", "new_subsingle": "subsingle", "new_uns": "uns", "new_feat": "feat"}[action]
             singleton_clash = kind in ("single", "other", "history", "subsingle", "uns") and bool(self.subscribed_of(kind))
             # a refinement constructed while only its base type is subscribed: the statement does not say which
             # of the two readings of "type" applies, so either outcome is taken as it comes
@@ -112,6 +112,12 @@ class H(Hooks):
                     from job_shop_lib.dispatching import HistoryObserver
 
                     o = HistoryObserver(d, subscribe=sub)
+                    o.tag = tag
+                elif kind == "feat":
+                    # a built-in, non-singleton feature observer: several of them (with equal contents) may be subscribed
+                    from job_shop_lib.dispatching.feature_observers import DurationObserver
+
+                    o = DurationObserver(d, subscribe=sub)
                     o.tag = tag
                 elif kind == "uns":
                     from job_shop_lib.dispatching import UnscheduledOperationsObserver
@@ -152,7 +158,7 @@ class H(Hooks):
             self.subscribed.remove(tag)
             return tag
         if action == "resub":
-            cands = [t for t in self.objs if t not in self.subscribed and self.kind[t] != "uns" and not (self.kind[t] != "multi" and (self.subscribed_of(self.kind[t]) or any(self.isa(self.kind[t], self.kind[u]) for u in self.subscribed)))]
+            cands = [t for t in self.objs if t not in self.subscribed and self.kind[t] not in ("uns", "feat") and not (self.kind[t] != "multi" and (self.subscribed_of(self.kind[t]) or any(self.isa(self.kind[t], self.kind[u]) for u in self.subscribed)))]
             if not cands:
                 return "skip"
             tag = cands[a % len(cands)]
